@@ -266,7 +266,7 @@ LEVEL_TEXT = {
     },
     "C10": {
         "text": "Unbounded proof (Verus), structural part only: Parser::read_build's result satisfies explicit_ins + implicit_ins + order_only_ins + validation_ins == ins.len() and explicit_outs <= outs.len() for every input text (the three subtractions cannot underflow), and the parser consumes input monotonically; Build's accessor slices are the consecutive ranges explicit | implicit | order-only | validation (units graph/sched).",
-        "note": "Roles at separator level are decided (read_build: each path list is read right behind the separator that declares its role -- `|`, `||`, `|@` -- and each count is the number of paths read in that list); what follows a `$` is decided case by case (read_escape: continuation, `$ `/`$$`/`$:` literals, `${name}` up to the first `}`, `$name` = longest [a-zA-Z0-9_-] run, hence the same reference for both spellings); the sequence of parts read_eval assembles and spacing independence (a relation between two different texts) are not; Loader::add_build's mapping of the parsed counts, path order and attributes onto graph::Build is (unit load).",
+        "note": "Roles at separator level are decided (read_build: each path list is read right behind the separator that declares its role -- `|`, `||`, `|@` -- and each count is the number of paths read in that list); what follows a `$` is decided case by case (read_escape: continuation, `$ `/`$$`/`$:` literals, `${name}` up to the first `}`, `$name` = longest [a-zA-Z0-9_-] run, hence the same reference for both spellings); read_eval's parts account for the text it read segment by segment, in order, nothing skipped or read twice (sc::covers: a maximal `$`-free run becomes one literal with exactly those bytes, a `$` starts one of read_escape's cases); spacing independence (a relation between two different texts) is not decided; Loader::add_build's mapping of the parsed counts, path order and attributes onto graph::Build is (unit load).",
         "design_ref": "DESIGN.md §6 C10",
     },
     "C18": {
